@@ -113,6 +113,14 @@ def run_case(c):
 
     BOUND = 4000
 
+    scr = r.random() < 0.5      # half of the masters drive garbage on address / writedata / byteenable / burstcount while idle
+
+    def garbage():
+        if not scr:
+            return []
+        return [av.address.eq(r.getrandbits(len(av.address))), av.writedata.eq(r.getrandbits(avw)), av.byteenable.eq(r.getrandbits(avb)),
+                av.burstcount.eq(r.randint(0, 255))]
+
     def main():
         yield [av.read.eq(0), av.write.eq(0), av.burstcount.eq(1)]
         for _ in range(3):
@@ -173,7 +181,7 @@ def run_case(c):
                     for i in range(avb):
                         if (be >> i) & 1:
                             model[(start + bi * inc) * avb + i] = (d >> (8 * i)) & 0xFF
-                yield av.write.eq(0)
+                yield [av.write.eq(0)] + garbage()
                 res["done"] += 1
             else:
                 if n > 1:
@@ -193,7 +201,7 @@ def run_case(c):
                 # and earlier writes were accepted before)
                 exp = [[rd_model((start + bi * inc) * avb + i) for i in range(avb)] for bi in range(n)]
                 state["expect"].append(dict(start=start, n=n, exp=exp, access=k))
-                yield av.read.eq(0)
+                yield [av.read.eq(0)] + garbage()
                 # wait for all beats of this read (this front-end does not accept a new command before)
                 waited = 0
                 while state["expect"]:
